@@ -403,13 +403,18 @@ def o2mQuery (k f owner : Nat) : PVal :=
     * `cls k .select(k.q.<f> == owner)` and `cls k .select(Field(<table of k>, f) == owner)` : `C.selectJoin db k f owner`;
     * `cls k .select(k.q.id == Field(t, g) & Field(t, c) == owner)` : `C.interJoin db t g c owner` — one result per
       link row (the other table is joined on its primary key) -/
+def whereRows (C : Conn) (db : DB) (k : Nat) : PVal → Option (List (Option Nat))
+  | .app t1 (.cons (.app t2 (.cons (.obj (.ctable k')) (.cons (.obj (.col f)) .nil))) (.cons (.int (.ofNat o)) .nil)) =>
+    if t1 = "==" ∧ t2 = "Field" ∧ k' = k then some (C.selectJoin db k f o) else none
+  | .app t1 (.cons (.app t2 (.cons (.obj (.idfield k')) (.cons (.app t3 (.cons (.obj (.tbl t)) (.cons (.obj (.lcol g)) .nil))) .nil)))
+      (.cons (.app t4 (.cons (.app t5 (.cons (.obj (.tbl t')) (.cons (.obj (.lcol c)) .nil))) (.cons (.int (.ofNat o)) .nil))) .nil)) =>
+    if t1 = "AND" ∧ t2 = "==" ∧ t3 = "Field" ∧ t4 = "==" ∧ t5 = "Field" ∧ k' = k ∧ t' = t then some (C.interJoin db t g c o) else none
+  | _ => none
+
 def queryRows (C : Conn) (db : DB) : PVal → Option (List (Option Nat))
-  | .app "select" (.cons (.obj (.cls k)) (.cons (.obj (.col f)) (.cons (.int (.ofNat o)) .nil))) => some (C.selectJoin db k f o)
-  | .app "select" (.cons (.obj (.cls k)) (.cons (.app "==" (.cons (.app "Field" (.cons (.obj (.ctable k')) (.cons (.obj (.col f)) .nil))) (.cons (.int (.ofNat o)) .nil))) .nil)) =>
-    if k' = k then some (C.selectJoin db k f o) else none
-  | .app "select" (.cons (.obj (.cls k)) (.cons (.app "AND" (.cons (.app "==" (.cons (.obj (.idfield k')) (.cons (.app "Field" (.cons (.obj (.tbl t)) (.cons (.obj (.lcol g)) .nil))) .nil)))
-      (.cons (.app "==" (.cons (.app "Field" (.cons (.obj (.tbl t')) (.cons (.obj (.lcol c)) .nil))) (.cons (.int (.ofNat o)) .nil))) .nil))) .nil)) =>
-    if k' = k ∧ t' = t then some (C.interJoin db t g c o) else none
+  | .app tag (.cons (.obj (.cls k)) (.cons (.obj (.col f)) (.cons (.int (.ofNat o)) .nil))) =>
+    if tag = "select" then some (C.selectJoin db k f o) else none
+  | .app tag (.cons (.obj (.cls k)) (.cons q .nil)) => if tag = "select" then whereRows C db k q else none
   | _ => none
 
 /-- what a finished accessor call returned: the ids of the instances in the returned list object -/
